@@ -370,6 +370,21 @@ func checkC11(r *evid.Run) {
 			}
 		}
 	}
+	// ... and the same with callbacks that ALL fail once they are let go: ten errors at the same instant, and the walk
+	// workers go on to the next roots, which fail too
+	for rep := 0; rep < 3; rep++ {
+		n := 31
+		fv := make([]string, n)
+		for i := range fv {
+			fv[i] = "sinkErr"
+		}
+		pc := buildPipeCase("walk", fv, n+1)
+		rq := pc.Req
+		rq.Stall = &wproto.Stall{Blocks: n, Then: "release"}
+		rq.Record = false
+		rq.Procs = []int{16, 4, 2}[rep]
+		jobs = append(jobs, job{pc, rq, "no", false})
+	}
 	// From-Root entry points with a cancelled context (the feeder's send)
 	for _, sink := range []string{"text", "enc", "dry", "walk", "mkdir", "verify"} {
 		for rep := 0; rep < 6; rep++ {
